@@ -9,9 +9,11 @@ import numpy as np
 from . import core, curves, seams
 from .core import fhex, digest_array, make_violation
 from .engine_curve import (COMPONENTS, MODELS, POC_METHODS, _caught,
+                           merge_shared,
                            enc_params, gen_options, gen_pipeline)
 from .seams import PLAN
 
+HMODELS = MODELS + ["sim_aux"]
 SETTING_KEYS = ["model_key", "optimal_fit_edelta", "optimal_fit_num_samples",
                 "params_initial", "range_type", "range_x", "segment",
                 "weight_cp", "gcf_k", "x_axis", "y_axis", "method",
@@ -63,6 +65,13 @@ PARAM_EDITS = [
     ("nu", "expr", ["0.5", ""]),
     ("baseline", "expr", ["0.0", "contact_point*0", ""]),
     ("virtual_parameter", "value", [10.0, 20.0]),
+    # auxiliary parameters of sim_aux (not in its parameter_keys)
+    ("scale", "max", [100.0, 4.5, 50.0]),
+    ("scale", "min", [0.0, 1.0]),
+    ("scale", "value", [4.0, 2.0]),
+    ("scale", "vary", [True, False]),
+    ("E_ref", "value", [500.0, 250.0]),
+    ("E_ref", "max", [1e5, 1e4]),
 ]
 
 
@@ -193,9 +202,15 @@ def rebuild_params(p, rng):
     user_data) differ while value, min, max, vary, expr are equal."""
     import lmfit
     q = lmfit.Parameters()
+    late = []
     for n, par in p.items():
         if par.expr is not None:
-            q.add(n, expr=par.expr, min=par.min, max=par.max)
+            try:
+                q.add(n, expr=par.expr, min=par.min, max=par.max)
+            except NameError:
+                # refers to a parameter that is defined further down
+                q.add(n, value=float(par.value), min=par.min, max=par.max)
+                late.append((n, par.expr))
             continue
         route = rng.choice(["add", "assign", "set"])
         if route == "add":
@@ -214,6 +229,8 @@ def rebuild_params(p, rng):
             q[n].vary = par.vary
         else:
             q[n].set(value=par.value, vary=par.vary)
+    for n, expr in late:
+        q[n].set(expr=expr)
     return q
 
 
@@ -284,7 +301,8 @@ class HashWalkEngine:
             cfg["n"] = min(cfg["n"], 400)
         nsteps = rng.choice([8, 12, 16, 20] if tier == "quick"
                             else [12, 20, 30])
-        model = rng.choice(MODELS)
+        model = rng.choice(HMODELS)
+        cur_model = model
         ops = [{"op": "init", "model": model,
                 "steps": ["compute_tip_position", "correct_force_offset",
                           "correct_tip_offset"], "options": {}}]
@@ -315,7 +333,9 @@ class HashWalkEngine:
                             "route": rng.choice(["setitem", "setitem",
                                                  "setitem", "fit_model"])})
             elif k == "param":
-                name, attr, vals = rng.choice(PARAM_EDITS)
+                name, attr, vals = rng.choice(
+                    PARAM_EDITS[-6:] if cur_model == "sim_aux"
+                    and rng.random() < 0.6 else PARAM_EDITS)
                 ops.append({"op": "param", "name": name, "attr": attr,
                             "value": rng.choice(vals)})
             elif k == "repr":
@@ -337,8 +357,22 @@ class HashWalkEngine:
                     steps = ["compute_tip_position"] + steps
                 ops.append({"op": "pipeline", "steps": steps,
                             "options": gen_options(rng, steps) or {}})
+                if ops[-1]["options"].get("correct_tip_offset") and \
+                        rng.random() < 0.4:
+                    # a caller with one options dictionary for this curve:
+                    # request, fit, the same steps with one nested option
+                    # edited in place
+                    ops[-1]["shared"] = True
+                    ops.append({"op": "fit"})
+                    o2 = copy.deepcopy(ops[-2])
+                    cur = o2["options"]["correct_tip_offset"].get("method")
+                    o2["options"]["correct_tip_offset"]["method"] = \
+                        rng.choice([m for m in POC_METHODS[:1]
+                                    + POC_METHODS[4:] if m != cur])
+                    ops.append(o2)
             elif k == "model_key":
-                ops.append({"op": "model", "model": rng.choice(MODELS)})
+                ops.append({"op": "model", "model": rng.choice(HMODELS)})
+                cur_model = ops[-1]["model"]
             else:
                 ops.append({"op": "reuse_fitted"} if rng.random() < 0.35
                            else {"op": "fit"})
@@ -479,7 +513,9 @@ class HashWalkEngine:
                             continue
                         live.apply_preprocessing(
                             copy.deepcopy(op["steps"]),
-                            copy.deepcopy(op["options"]))
+                            merge_shared(live, copy.deepcopy(op["options"]))
+                            if op.get("shared")
+                            else copy.deepcopy(op["options"]))
                         apply_perturb(live, perturb)
                         if "params_initial" not in live.fit_properties:
                             live.fit_properties["params_initial"] = \
